@@ -9,7 +9,7 @@ Extraction "model.ml"
   judge_with judge judge_many verdict_ok disagreements agrees same_set
   ctx_area result_area isolated_count nonredundant
   same_operand_hole_meets_sibling_interior in_covered_hole same_operand_areal_members_overlap raw_absent in_areal
-  snap_geom snap_pt dist2 seg_closest geom_mapxy pt_red operand_vertices operand_segs magnitude moved_count bbox
+  clearance_ok snap_geom snap_pt dist2 seg_closest geom_mapxy pt_red operand_vertices operand_segs magnitude moved_count bbox
   g_polys g_lines g_points g_pointTs geom_vs
   Qplus Qminus Qmult Qdiv Qopp Qabs.Qabs Qred Qle_bool Qeq_bool inject_Z Qcompare
   Z.add Z.mul Z.sub Z.of_N Z.opp Z.pow_pos.
